@@ -11,6 +11,8 @@ Import ListNotations.
 From Base Require Import PyStr.
 From Model Require Import Wrap BlockStart Render InlineRead BlockRead.
 From Proofs Require Import PyStrFacts WrapProofs EscapeProofs RenderProofs CodeSpanProofs DestProofs FenceProofs HeadingProofs ListProofs TableProofs.
+From Model Require Pipeline.
+From Proofs Require HeadProofs.
 
 (* 1. Nothing is dropped, invented, merged or split by wrapping: the lines are the input words in
    order; line 0 verbatim, the head of every later line passed through the escape, nothing else. *)
@@ -148,3 +150,12 @@ Print Assumptions C01_rendered_item_marker_read_back.
 Theorem C01_fence_language_escapes_undone : forall s, strip_backslash (escape_backslashes_inner s) = s.
 Proof. exact strip_escape_backslashes_inner. Qed.
 Print Assumptions C01_fence_language_escapes_undone.
+
+(* 11. The head of the formatter drops nothing but whitespace-only lines from the start of the text: what is
+   handed on begins at a line start of the text, with that line's indentation (an indented code block that
+   opens the document stays one; fix aeff3ee). *)
+Theorem C01_only_leading_blank_lines_dropped : forall s,
+  exists pre, s = pre ++ Pipeline.drop_leading_blank_lines s /\ forallb is_space pre = true /\
+              (pre = [] \/ exists p, pre = p ++ [10%N]).
+Proof. exact HeadProofs.leading_blank_lines_only. Qed.
+Print Assumptions C01_only_leading_blank_lines_dropped.
